@@ -14,13 +14,15 @@ props = [json.loads(l) for l in open(os.path.join(ROOT, 'properties.jsonl'))]
 mods = all_modules()
 checks = []
 engines = {}
+# only checks validated on the unchanged tree are registered
+enabled = set(json.load(open(os.path.join(ROOT, 'enabled.json'))))
 for p in props:
     pid = p['id']
     if pid not in mods:
         continue
     m = importlib.import_module(mods[pid])
     meta = m.META
-    if meta.get('disabled'):
+    if meta.get('disabled') or pid not in enabled:
         continue
     eng = meta['engine']
     engines.setdefault(eng, []).append(pid)
